@@ -27,6 +27,9 @@ type Oblig struct {
 	Status    Status `json:"status"`
 	Why       string `json:"why"`
 	Config    string `json:"config,omitempty"`
+	// Props (debug JSON only): the properties that still report this obligation after the helper-inlined view was consulted
+	Props   []string `json:"reported_props,omitempty"`
+	TwoView bool     `json:"two_view,omitempty"`
 }
 
 // Reporter collects the obligations of one rule.
